@@ -941,11 +941,47 @@ def distance_matrix_fast(s, max_dist=None, use_pruning=False, max_length_diff=No
 
 def warping_path(from_s, to_s, include_distance=False, use_ndim=False, **kwargs):
     """Compute warping path between two sequences."""
-    dist, paths = warping_paths(from_s, to_s, use_ndim=use_ndim, **kwargs)
-    path = best_path(paths)
+    s = DTWSettings(use_ndim=use_ndim, **kwargs)
+    if s.use_c:
+        dist, paths = warping_paths(from_s, to_s, use_ndim=use_ndim, **kwargs)
+        path = best_path(paths)
+        if include_distance:
+            return path, dist
+        return path
+    # Backtrack on the internal representation such that the penalty can be taken into
+    # account, and start from the cell that has been selected by the psi-relaxation.
+    _, result_fn, _ = innerdistance.inner_dist_fns(s.inner_dist, use_ndim=s.use_ndim)
+    dist, paths = warping_paths(from_s, to_s, use_ndim=use_ndim, keep_int_repr=True, psi_neg=False, **kwargs)
+    row, col = _psi_end_cell(paths, s)
+    path = best_path(paths, row=row, col=col, penalty=s.adj_penalty)
     if include_distance:
+        if dist != inf:
+            dist = result_fn(dist)
         return path, dist
     return path
+
+
+def _psi_end_cell(paths, settings):
+    """Cell in the last row or last column where the best path ends when psi-relaxation
+    is applied to the end of the series (same selection as in warping_paths)."""
+    _, psi_1e, _, psi_2e = settings.split_psi()
+    ir = paths.shape[0] - 1
+    ic = paths.shape[1] - 1
+    if psi_1e == 0 and psi_2e == 0:
+        return ir, ic
+    mir, vr_mir = 0, inf
+    if psi_1e != 0:
+        vr = paths[ir:max(0, ir-psi_1e-1):-1, ic]
+        mir = argmin(vr)
+        vr_mir = vr[mir]
+    mic, vc_mic = 0, inf
+    if psi_2e != 0:
+        vc = paths[ir, ic:max(0, ic-psi_2e-1):-1]
+        mic = argmin(vc)
+        vc_mic = vc[mic]
+    if vr_mir < vc_mic:
+        return int(ir - mir), ic
+    return ir, int(ic - mic)
 
 
 def warping_path_fast(from_s, to_s, include_distance=False, **kwargs):
